@@ -250,8 +250,16 @@ def a_dense(rng: Any, s: Any) -> Any:
     if len(set(shapes)) == 1 and len(shapes[0]) == 2:
         forms += ['batch', 'batch_mid']
     forms.append('perleaf')
+    if len(set(shapes)) == 1 and len(shapes[0]) == 3:
+        forms += ['batch2', 'batch2']
     form = pick(rng, forms)
     m = int(rng.integers(1, 4))
+    if form == 'batch2':
+        # two batch letters a, b: the block term is any permutation of a, b, i (free) and j (contracted)
+        a, b, j = shapes[0]
+        size = {'a': a, 'b': b, 'j': j, 'i': m}
+        left = ''.join(rng.permutation(list('abij')))
+        return DenseBlockDiagonalOperator(dy(rng, tuple(size[c] for c in left), dt), s, f'{left},abj->abi')
     if form == 'first':
         return DenseBlockDiagonalOperator(dy(rng, (m, shapes[0][0]), dt), s, 'ij...,j...->i...')
     if form == 'last':
